@@ -58,6 +58,19 @@ def wrapStep (E v : Nat) (inc dec load : Bool) (lv : Nat) : Nat :=
   else if dec && !inc then (v + E - 1) % E
   else v
 
+/-- definition of one cycle of a `Counter` instance by its API: it free-runs (`+1` modulo `E`) iff neither `inc()` nor `dec()` is
+ever called on it; otherwise `inc` / `dec` requests move it by one modulo `E` (both together cancel); a `load(v)` or `reset()`
+request overrides the counting, the later of the two calls in the program deciding the value when both are requested. -/
+def apiStep (E rv : Nat) (u : CounterUse) (resetLast : Bool) (v : Nat) (c : CounterCalls) : Nat :=
+  let ld := u.load && c.load
+  let rs := u.reset && c.reset
+  let free := !u.inc && !u.dec
+  wrapStep E v ((u.inc && c.inc) || free) (u.dec && c.dec) (ld || rs)
+    (if ld && rs then (if resetLast then rv else c.lv) else if rs then rv else c.lv)
+
+def apiRun (E rv : Nat) (u : CounterUse) (resetLast : Bool) (v : Nat) (hist : List CounterCalls) : Nat :=
+  hist.foldl (apiStep E rv u resetLast) v
+
 /-- value of the modulo-`E` counter after a history of cycles -/
 def wrapRun (E v : Nat) (ops : List CounterOp) : Nat :=
   ops.foldl (fun v o => wrapStep E v o.inc o.dec o.load o.lv) v
